@@ -706,6 +706,18 @@ fn cmd_illform(seed: u64) {
             edits.push(("repeated / misplaced XML declaration".into(), ins(root.start, "<?xml version='1.0'?>")));
         }
         edits.push(("XML declaration inside content".into(), ins(root.end, "<?xml version='1.0'?>")));
+        if !t.starts_with("<?xml") && !t.starts_with('\u{feff}') {
+            for d in [
+                "<?xml versionx='1.0'?>", "<?xml version:a='1.0'?>", "<?xml version='1.0' encodingx='UTF-8'?>",
+                "<?xml version='1.0' standalonex='yes'?>", "<?xml version='1.0' encoding:e='UTF-8'?>",
+                "<?xml version='1.0'encoding='UTF-8'?>", "<?xml encoding='UTF-8'?>", "<?xml version='1.0' standalone='yes' encoding='UTF-8'?>",
+                "<?xml version='1.0' version='1.0'?>", "<?xml version='1.0' x='y'?>", "<?xml?>x", "<?xml ?>", "<?xml version=1.0?>",
+                "<?xml version='1.0'", "<?xml version='1<0'?>",
+            ] {
+                edits.push((format!("bad XML declaration {}", d), format!("{}{}", d, t)));
+            }
+            edits.push(("PI before the root without separator".into(), format!("<?pi+x?>{}", t)));
+        }
         for e in direct.iter() {
             let name_end = e.0 + 1 + e.2.len();
             edits.push(("duplicate attribute".into(), ins(name_end, " dupx='1' dupx='2'")));
@@ -757,6 +769,8 @@ fn cmd_illform(seed: u64) {
                         edits.push(("undeclared element prefix".into(), ins(at, "<undeclared9:a/>")));
                         edits.push(("xmlns as element prefix".into(), ins(at, "<xmlns:a/>")));
                         edits.push(("PI without target".into(), ins(at, "<? x?>")));
+                        edits.push(("PI content not separated from the target".into(), ins(at, "<?pi+x?>")));
+                        edits.push(("PI content not separated from the target (non-ASCII)".into(), ins(at, "<?pi\u{d7}?>")));
                         edits.push(("stray '<'".into(), ins(at, "< ")));
                         edits.push(("DOCTYPE in content".into(), ins(at, "<!DOCTYPE x>")));
                         edits.push(("unclosed element".into(), ins(at, "<unclosed9>")));
